@@ -23,7 +23,7 @@ CHECKS = {
  "C06": ("property-based testing with constructed long tails: deciding digit placed at chosen absolute positions (19-digit cut, MAX_DIGITS cut, chunk edges, 1e3..1e6), expectation by construction and by the exact oracle",
          "Every case has >= 20 significant digits and sits on a rounding boundary; positions sweep every cut-off the code has.",
          "Same oracle as C01.", "DESIGN.md section 2, C06", "mlv"),
- "C07": ("property-based testing at the range ends: midpoints around 0 / min subnormal / min normal / MAX, zero significands, compensated and uncompensable extreme exponents; exact oracle with the overflow/underflow thresholds built in",
+ "C07": ("property-based testing at the range ends: midpoints around 0 / min subnormal / min normal / MAX, zero significands, compensated and uncompensable extreme exponents, interior points of the rounding interval for subnormals of every bit length; exact oracle with the overflow/underflow thresholds built in",
          "Exploration concentrated on the IEEE thresholds and on exponent arithmetic at the i32 limits.",
          "Same oracle as C01 (exponent arithmetic in i64).", "DESIGN.md section 2, C07", "mlv"),
  "C08": ("coverage-guided fuzzing (libFuzzer target fz_bytes) under AddressSanitizer in two builds (debug assertions on / off) + proptest over hostile byte strings in release and debug-assertion builds under a process supervisor",
@@ -40,7 +40,7 @@ CHECKS = {
          "Domain: t=true implies 1 <= w <= u64::MAX-1 (caller-established).", "DESIGN.md section 2, C11", "mlv"),
  "C12": ("model-based property testing of every big-integer operation against the harness's Nat, operands hovering around the 62-limb capacity, stack and heap back-ends, release and debug-assertion builds; libFuzzer target fz_vec under ASan",
          "Exact-result / reported-overflow rule checked per operation; 'writing outside its buffer' observed by ASan and UB-precondition checks.",
-         "Operands are non-zero as the property quantifies; un-normalised operands get the representation-based failure rule.", "DESIGN.md section 2, C12", "mlv supervisor+libfuzzer"),
+         "Operands are non-zero as the property quantifies; un-normalised operands get the representation-based failure rule. Exponents / shift counts far beyond the capacity (whole u32 range) are applied to the fixed-capacity back-end only and must report failure.", "DESIGN.md section 2, C12", "mlv supervisor+libfuzzer"),
  "C13": ("stateful model-based testing: generated operation histories interpreted against StackVec / HeapVec and a Vec<u64> reference, invariants after every step; stack poisoning; libFuzzer target fz_vec under ASan",
          "Histories sized to reach capacity, shrink and regrow; rejected growth must leave contents unchanged.",
          "Contents after a failed add_small/mul_small are unspecified.", "DESIGN.md section 2, C13", "mlv supervisor+libfuzzer"),
